@@ -541,9 +541,9 @@ def faithful(ctx: Any) -> List[Ob]:
     RFC 4034 does (also in windows other than 0), and the record constructors keep what the decoder hands them (a
     constructor that clamps a TTL or re-cases a name makes a valid datagram decode to something else).  The layout of the
     records themselves is C01.LAYOUT."""
-    from .c01 import ctor_verbatim_obligations, frame_locals_obligations, nsec_reader_obligation, resume_position_obligations, label_walk_obligations
+    from .c01 import ctor_verbatim_obligations, frame_locals_obligations, nsec_reader_obligation, resume_position_obligations, label_walk_obligations, record_loop_obligations
 
-    return [nsec_reader_obligation(ctx, 'C02.FAITHFUL')] + ctor_verbatim_obligations(ctx, 'C02.FAITHFUL') + frame_locals_obligations(ctx, 'C02.FAITHFUL') + resume_position_obligations(ctx, 'C02.FAITHFUL') + label_walk_obligations(ctx, 'C02.FAITHFUL') + own_rejections(ctx, 'C02.FAITHFUL')
+    return [nsec_reader_obligation(ctx, 'C02.FAITHFUL')] + ctor_verbatim_obligations(ctx, 'C02.FAITHFUL') + frame_locals_obligations(ctx, 'C02.FAITHFUL') + resume_position_obligations(ctx, 'C02.FAITHFUL') + label_walk_obligations(ctx, 'C02.FAITHFUL') + record_loop_obligations(ctx, 'C02.FAITHFUL') + own_rejections(ctx, 'C02.FAITHFUL')
 
 
 @rule('C02.STATELESS', 'N', expect_min=10)
